@@ -7,8 +7,11 @@ mkdir -p build evidence/replay
 cp /repo/Cargo.lock deps/astdeps/Cargo.lock
 ( cd deps/astdeps && CARGO_TARGET_DIR=../../build/astdeps-target cargo +1.98.1-x86_64-unknown-linux-gnu build --offline --quiet )
 python3 tools/gen_astspec.py
+python3 tools/gen_lspspec.py
 cp /repo/Cargo.lock replay/Cargo.lock
 ( cd replay && CARGO_TARGET_DIR=../build/replay-target cargo build --offline --quiet )
+# the server binary for handler-level (stdio JSON-RPC) replays
+( cd /repo && CARGO_TARGET_DIR=/verif/build/lsp-target cargo build --offline --quiet --bin pytest-language-server )
 if [ -f kani/Cargo.toml ]; then
   # warm the Kani build of the harness crate (cheap: the crate has no dependencies)
   ( cd kani && CARGO_TARGET_DIR=../build/kani-target cargo kani --harness scope_order_complete > /dev/null 2>&1 || true )
